@@ -71,7 +71,7 @@ def through(tr, leaves, depth=0):
         if depth < 4 and l.kind == "agg" and l.detail[0] == "adt" and l.detail[2] == "Some":
             st = tr.b.blocks[l.detail[3]]["s"][l.detail[4]]
             out |= through(tr, tr.operand(st["rv"]["ops"][0]), depth + 1)
-        elif depth < 4 and l.kind == "call" and l.detail[0].rsplit("::", 1)[-1] in ("unwrap", "expect"):
+        elif depth < 4 and l.kind == "call" and l.detail[0].rsplit("::", 1)[-1] in ("unwrap", "expect", "unwrap_or_else", "unwrap_or", "unwrap_or_default", "cloned", "copied"):
             t = tr.b.term(l.detail[2])
             for x in through(tr, tr.operand(t["args"][0]), depth + 1):
                 out.add(type(x)((x.kind, x.detail, tuple(x.projs) + tuple(l.projs))))
@@ -150,6 +150,7 @@ def check_scope(crate, rep, cfg):
     rep.analysed(b)
     tr = Tracer(b)
     sites = {}
+    helper_bodies = []
     for bb, t in b.calls():
         cd = callee_def(t)
         if cd.endswith("for_loop::ForLoop::get"):
@@ -170,6 +171,32 @@ def check_scope(crate, rep, cfg):
                 sites.setdefault("global", []).append(bb)
             else:
                 sites.setdefault("other-map", []).append(bb)
+        elif cd in crate.bodies and crate.bodies[cd].kind in ("fn", "assoc_fn") and t["args"] and is_whole_self(tr, t["args"][0]):
+            # a private helper on self: the lookups it performs (itself or in its closures) count as performed here
+            h = crate.bodies[cd]
+            for hb in crate.with_closures(h):
+                htr = Tracer(hb)
+                for b2, t2 in hb.calls():
+                    c2 = callee_def(t2)
+                    if c2.endswith("for_loop::ForLoop::get"):
+                        sites.setdefault("loops", []).append(bb)
+                        helper_bodies.append(hb)
+                    elif is_map_get(t2) and hb is h:
+                        f = self_fields(htr, t2["args"][0])
+                        k2 = "assignments" if f == {(".set_variables",)} else "context" if f and all(x and x[:1] == (".context",) for x in f) else \
+                            "global" if f and all(x and x[:1] == (".global_context",) for x in f) else "other-map"
+                        sites.setdefault(k2, []).append(bb)
+            helper_bodies.append(h)
+        elif cd.rsplit("::", 1)[-1] in ("and_then", "map", "is_some_and", "map_or", "map_or_else") and "Option" in cd and len(t["args"]) >= 2:
+            # `self.global_context.and_then(|g| g.data.get(name))`: a map lookup inside the closure belongs to the scope of the receiver field
+            f = self_fields(tr, t["args"][0])
+            scope = "global" if f and all(x and x[:1] == (".global_context",) for x in f) else "context" if f and all(x and x[:1] == (".context",) for x in f) else None
+            cls = [st["rv"]["def"] for b2, i2, st in b.stmts() if i2 != "t" and st.get("k") == "assign" and st["rv"]["k"] == "agg" and st["rv"].get("ak") == "closure"
+                   and any(l.kind == "agg" and l.detail[-2:] == (b2, i2) for a in t["args"][1:] for l in tr.operand(a))]
+            for c in cls:
+                cb = crate.bodies.get(c)
+                if cb is not None and any(is_map_get(t2) for b2, t2 in cb.calls()):
+                    sites.setdefault(scope or "other-map", []).append(bb)
     order = ["loops", "assignments", "includer", "context", "global"]
     missing = [k for k in order if len(sites.get(k, [])) != 1]
     extra = [k for k in sites if k not in order]
@@ -188,7 +215,8 @@ def check_scope(crate, rep, cfg):
             ok = fwd and not (a in b.reach_from(c) if a != c else False)
             rep.add("C03.SCOPE", "C03.SCOPE:get_value:order:%s<%s" % (order[i], order[j]), ok, b.where(c), "the %s lookup comes before the %s lookup on every path (never after it)"
                     % (order[i], order[j]) + ("" if ok else " — VIOLATED: name resolution order changed"))
-    walk_heads = [bb for bb, t in b.calls() if callee_def(t).endswith("Iterator::next") and s["loops"] in b.reach_from(bb)]
+    walk_heads = [bb for bb, t in b.calls() if callee_def(t).endswith("Iterator::next") and s["loops"] in b.reach_from(bb)] or \
+        ([s["loops"]] if helper_bodies else [])
     for a, c in (("loops", "assignments"), ("assignments", "context"), ("context", "global")):
         ok = b.dominates(s[a], s[c]) if a != "loops" else (bool(walk_heads) and all(b.dominates(h, s[c]) for h in walk_heads))
         rep.add("C03.SCOPE", "C03.SCOPE:get_value:dominates:%s<%s" % (a, c), ok, b.where(s[c]), "the %s lookup is always tried before the %s lookup is reached" % (a, c)
@@ -200,6 +228,7 @@ def check_scope(crate, rep, cfg):
         if dest and dest["l"] == 0 and not dest["p"]:
             ret_assigns.append((bb, idx, st))
     seen_from = set()
+    undefined_tail = []
     for bb, idx, st in ret_assigns:
         if idx == "t":
             leaves = set().union(*[tr.operand(a) for a in st["args"]]) if st["args"] else set()
@@ -210,6 +239,12 @@ def check_scope(crate, rep, cfg):
                 continue
         else:
             leaves = tr._rv(st["rv"], (), set(), 0, bb, idx)
+        if idx == "t" and callee_def(st).rsplit("::", 1)[-1] in ("unwrap_or_else", "unwrap_or", "unwrap_or_default") and st["args"]:
+            # `<lookup>.cloned().unwrap_or_else(Value::undefined)`: the answer of the lookup, Undefined otherwise
+            leaves = tr.operand(st["args"][0])
+            if any(a["k"] == "const" and str(a.get("fn", "")).endswith("Value::undefined") for a in st["args"][1:]):
+                undefined_tail.append(bb)
+        leaves = through(tr, leaves)
         srcs = {k for k in order for l in leaves if l.kind == "call" and l.detail[2] == s[k]}
         if len(srcs) != 1:
             rep.bad("C03.SCOPE", "C03.SCOPE:get_value:return-source", b.where(bb), "a return value of get_value does not come from exactly one scope lookup: %s"
@@ -223,8 +258,9 @@ def check_scope(crate, rep, cfg):
     rep.add("C03.SCOPE", "C03.SCOPE:get_value:every-scope-can-answer", seen_from == set(order), b.where(0), "each of the five scopes has a return of its own hit"
             + ("" if seen_from == set(order) else " — VIOLATED: no return from %s" % sorted(set(order) - seen_from)))
     # innermost loop first
-    nexts = [t for bb, t in b.calls() if callee_def(t).endswith("Iterator::next")]
-    ok = bool(nexts) and all("Rev<" in (t["atys"][0] if t["atys"] else "") for t in nexts)
+    walkers = [t for hb in [b] + helper_bodies for bb, t in hb.calls()
+               if callee_def(t).rsplit("::", 1)[-1] in ("next", "find_map", "find", "rfind", "try_fold", "fold", "for_each") and "vm::for_loop::ForLoop" in (t["atys"][0] if t["atys"] else "")]
+    ok = bool(walkers) and all(("Rev<" in t["atys"][0]) != callee_def(t).endswith("rfind") for t in walkers)
     rep.add("C03.SCOPE", "C03.SCOPE:get_value:innermost-loop-first", ok, b.where(s["loops"]), "the loop frames are walked in reverse (innermost first)" + ("" if ok else " — VIOLATED"))
     # inside one frame: per-iteration assignments, then the value name, then the key name
     g = crate.one("vm::for_loop::ForLoop::get")
